@@ -96,6 +96,34 @@ struct MapAd {
 	bool reinsert() { return c.Insert(std::move(handle)).inserted; }
 };
 
+// HashMap<Key, Val> whose mapped value is an instrumented element class too: every combination of the relocation / assignment
+// categories of key and value (MapKeyValueTraits picks pvRelocate / pvReplace / pvReplaceRelocate / pvRelocateExec by them).
+// extract() answers the value only if the node handle holds the key asked for and both objects are alive.
+template<typename Key, typename Val, typename Traits>
+struct MapAdV {
+	typedef momo::HashMap<Key, Val, Traits, HMM, momo::HashMapKeyValueTraits<Key, Val, HMM>, NoExtraMap> C;
+	typedef decltype(C::mHashSet) HS;
+	static const bool isMap = true;
+	C c;
+	HS& hs() { return c.mHashSet; }
+	bool insert(uint32_t k, uint32_t v) { Key key(k); Val val(v); return c.Insert(key, val).inserted; }
+	std::optional<uint32_t> find(uint32_t k) { auto p = c.Find(Key(k)); if (!p || idOf(p->key) != k || p->key.state != 0xA11CE || p->value.state != 0xA11CE) return std::nullopt; return idOf(p->value); }
+	bool remove(uint32_t k) { return c.Remove(Key(k)); }
+	size_t removePred(uint32_t m, uint32_t r) { return c.Remove([m, r](const Key& x, const Val&) { return idOf(x) % m == r; }); }
+	std::vector<uint32_t> trav() { std::vector<uint32_t> v; for (auto ref : c) v.push_back(idOf(ref.key)); return v; }
+	template<typename Item> static uint32_t keyOf(const Item& it) { return idOf(*it.GetKeyPtr()); }
+	template<typename Item> static uint32_t valOf(const Item& it) { return idOf(*it.GetValuePtr()); }
+	typename C::ExtractedPair handle;
+	std::optional<uint32_t> extract(uint32_t k) {
+		auto p = c.Find(Key(k)); if (!p) return std::nullopt;
+		c.Remove(typename C::ConstIterator(p), handle);
+		if (handle.IsEmpty() || idOf(handle.GetKey()) != k || handle.GetKey().state != 0xA11CE || handle.GetValue().state != 0xA11CE) return std::nullopt;
+		return idOf(handle.GetValue());
+	}
+	bool hasHandle() { return !handle.IsEmpty(); }
+	bool reinsert() { return c.Insert(std::move(handle)).inserted; }
+};
+
 // ---------- layout of the real table
 struct GenInfo { size_t L; size_t count; };
 
@@ -545,6 +573,24 @@ static size_t ffPools()
 	return fullFromByPools<typename Ad::HS::Bucket>();
 }
 
+template<typename Bucket> static size_t fullFromV(unsigned, std::true_type) { return fullFromByPools<Bucket>(); }
+template<typename Bucket> static size_t fullFromV(unsigned n, std::false_type) { return n; }
+template<typename HashBucket, typename Key, typename Val, bool fast, unsigned logStart, bool pools>
+static void runKindV(Ctx& c, Rng& rng, const char* kind, unsigned n, const char* elem, unsigned runs)
+{
+	typedef FamTraits<Key, HashBucket, fast, logStart> Traits;
+	typedef MapAdV<Key, Val, Traits> Ad;
+	Cfg cfg{ kind, n, elem, fast, true, logStart, fullFromV<typename Ad::HS::Bucket>(n, std::integral_constant<bool, pools>()) };
+	if (!fast) runs *= 3;
+	for (unsigned run = 0; run < runs; ++run) {
+		unsigned fam = (unsigned)rng.below(8);
+		static const unsigned ranges[] = { 12, 40, 150, 600 };
+		unsigned keyRange = ranges[rng.below(4)];
+		unsigned nOps = c.thorough ? 1200 : 260;
+		runConfig<Ad, Key>(c, rng, cfg, fam, keyRange, nOps, run);
+	}
+}
+#define KINDV(HB, KEY, VAL, FAST, LS, NAME, N, ELEM, POOLS) runKindV<HB, KEY, VAL, FAST, LS, POOLS>(c, rng, NAME, N, ELEM, runs)
 #define KIND(HB, KEY, FAST, MAP, LS, NAME, N, ELEM, FF) runKind<HB, KEY, FAST, MAP, LS>(c, rng, NAME, N, ELEM, FF, runs)
 #define POOLS(HB, KEY, FAST, MAP, LS) (&ffPools<HB, KEY, FAST, MAP, LS>)
 
@@ -579,6 +625,20 @@ int main(int argc, char** argv)
 	KIND(momo::HashBucketOne<>, Elem4, true, false, 3, "One", 1, "e4", nullptr);
 	KIND(momo::HashBucketOne<>, E16, false, true, 3, "One", 1, "e16", nullptr);
 	KIND(momo::HashBucketOne<>, ElemCO, true, false, 3, "One", 1, "co", nullptr);
+#elif VF_PART == 4
+	// maps whose key AND value are element classes, in the combinations of relocation / assignment categories that the other parts lack
+	// (nm = nothrow-move, ca = copy-only nothrow-assign, sw = copy-only noexcept swap, ct = copy-only throwing assign; key_value)
+	KINDV(momo::HashBucketLimP4<4>, ElemSW, ElemCT, true, 2, "LimP4", 4, "sw_ct", false);
+	KINDV(momo::HashBucketLimP4<3>, ElemCT, ElemCA, false, 1, "LimP4", 3, "ct_ca", false);
+	KINDV(momo::HashBucketLimP4<2>, ElemCT, ElemCT, true, 2, "LimP4", 2, "ct_ct", false);
+	KINDV(momo::HashBucketLimP4<4>, ElemNM, ElemSW, true, 2, "LimP4", 4, "nm_sw", false);
+	KINDV(momo::HashBucketLimP4<4>, ElemCA, ElemNM, true, 2, "LimP4", 4, "ca_nm", false);
+	typedef momo::HashBucketLimP1<3> LimP1_3V;
+	KINDV(LimP1_3V, ElemCA, ElemSW, true, 2, "LimP1", 3, "ca_sw", true);
+	KINDV(momo::HashBucketUnlimP<>, ElemCT, ElemCT, true, 2, "UnlimP", 0, "ct_ct", false);
+	KINDV(momo::HashBucketOpen2N2<3>, ElemSW, ElemCA, true, 2, "Open2N2", 3, "sw_ca", false);
+	KINDV(momo::HashBucketOpen8, ElemCT, ElemCT, true, 1, "Open8", 7, "ct_ct", false);
+	KINDV(momo::HashBucketOpen2N2<2>, ElemCA, ElemCT, false, 2, "Open2N2", 2, "ca_ct", false);
 #elif VF_PART == 3
 	// configuration corners of the chained buckets.
 	// (1) HashBucketLimP<5..15> with pointer state: (items pointer, count, pool index) are packed into one word and decoded by
